@@ -266,7 +266,8 @@ def run_case(case, ch: Choices) -> RunResult:
                     os.path.join(dp, f) for dp, _d, fs in os.walk(target) for f in fs if "__pycache__" not in dp)
                 kinds_ = []
                 for fp in files_:
-                    how = prng.choice(["crlf", "crlf", "append", "empty", "mtime_future", "mtime_past", "none", "cr", "trailing_ws"])
+                    how = prng.choice(["crlf", "crlf", "append", "empty", "mtime_future", "mtime_past", "none", "cr", "trailing_ws",
+                                       "symlink_to_copy", "dangling_symlink"])
                     kinds_.append(how)
                     data = open(fp, "rb").read()
                     if how == "crlf":
@@ -282,6 +283,18 @@ def run_case(case, ch: Choices) -> RunResult:
                     if how in ("crlf", "cr", "append", "empty", "trailing_ws"):
                         with open(fp, "wb") as f_:
                             f_.write(data)
+                    elif how in ("symlink_to_copy", "dangling_symlink") and os.path.isdir(target):
+                        # the generated file was replaced by a link (a monorepo de-duplicating identical modules): to an edited
+                        # copy kept elsewhere, or to something that is gone.  Regenerating writes the fresh content all the same
+                        # (what a reader of the path gets is what is compared)
+                        elsewhere = os.path.join(root, "linked_elsewhere")
+                        os.makedirs(elsewhere, exist_ok=True)
+                        dst = os.path.join(elsewhere, "%d_%s" % (len(kinds_), os.path.basename(fp)))
+                        if how == "symlink_to_copy":
+                            with open(dst, "wb") as f_:
+                                f_.write(data + b"# de-duplicated copy, edited\n")
+                        os.unlink(fp)
+                        os.symlink(dst, fp)
                     elif how == "mtime_future":
                         os.utime(fp, (4102444800, 4102444800))
                     elif how == "mtime_past":
